@@ -59,3 +59,9 @@ Theorem cgr_centres_ok : cgr_centre_is_half_cgr = true /\ cgr_centre_is_half_oli
 Proof. split; reflexivity. Qed.
 Theorem number_sizes_ok : number_size_oligo = 8 /\ number_size_coverage = 8.
 Proof. split; reflexivity. Qed.
+
+(* ---- suffix table of SeqFormat::get = the documented suffixes ---- *)
+Theorem suffixes_ok :
+  suffixes_fastq = [[46; 102; 113]; [46; 102; 97; 115; 116; 113]] /\                     (* .fq .fastq *)
+  suffixes_fasta = [[46; 102; 97; 115; 116; 97]; [46; 102; 97]; [46; 102; 110; 97]].    (* .fasta .fa .fna *)
+Proof. split; reflexivity. Qed.
